@@ -185,9 +185,9 @@ static void fileGraphDivide(Acc& A, gg::FileGraph& fg, bool byEdge, size_t nw, s
   } else {
     // the edges are what is divided; the node ranges only have to be well
     // formed, in order, and reach at least the last node that has edges
-    A.finishDivision(te, M, exhaustive, "edges" + flags, wit);
+    A.finishDivision(te, M, exhaustive, "edges", wit);
     tn.hiMin = (pos_t)hiMinNodes;
-    secondaryCheck(A, tn, "nodes" + flags, wit);
+    secondaryCheck(A, tn, "nodes", wit);
   }
 }
 
